@@ -834,4 +834,187 @@ theorem live_run {cfg : Cfg} (hrv : cfg.revive = true) (hj : cfg.joinFirst = tru
       rw [ih hf.1 hr, hf.2.2, liveAfter_spec hrv hj hi hs]
       rfl
 
+/-! ### the editor only ever issues dictionary calls -/
+
+theorem run_append (cfg : Cfg) (l1 l2 : List Act) (w : World) :
+    run cfg w (l1 ++ l2) = match run cfg w l1 with | some w' => run cfg w' l2 | none => none := by
+  induction l1 generalizing w with
+  | nil => simp [run]
+  | cons a as ih =>
+    simp only [List.cons_append, run]
+    cases step cfg w a with
+    | none => rfl
+    | some w1 => exact ih w1
+
+theorem edRun_refines {cfg : Cfg} {eacts : List EdAct} {e e' : EdWorld} (h : edRun cfg e eacts = some e') :
+    ∃ acts, run cfg e.w acts = some e'.w := by
+  induction eacts generalizing e with
+  | nil =>
+    have := Option.some.inj h
+    subst this
+    exact ⟨[], rfl⟩
+  | cons a as ih =>
+    unfold edRun at h
+    cases hs : edStep cfg e a with
+    | none => rw [hs] at h; cases h
+    | some e1 =>
+      rw [hs] at h
+      obtain ⟨acts2, h2⟩ := ih h
+      unfold edStep at hs
+      cases hr : run cfg e.w (edExpand e.dirtyLevel a).1 with
+      | none => rw [hr] at hs; cases hs
+      | some w1 =>
+        rw [hr] at hs
+        have hs := Option.some.inj hs
+        subst hs
+        refine ⟨(edExpand e.dirtyLevel a).1 ++ acts2, ?_⟩
+        rw [run_append, hr]
+        exact h2
+
+/-! ### the editor never lets `sync` adopt -/
+
+/-- what the editor's environment may do: drop the editor, the parts of `Drop`, writer steps, a crash -/
+def EnvOk : EdAct → Prop
+  | .env a => a = .close ∨ a = .d ∨ a = .w ∨ a = .crash
+  | _ => True
+
+/-- while the editor is alive, a positive `dirty_level` means the dictionary is dirty -/
+def EdInv (e : EdWorld) : Prop := e.w.phase = .run → 0 < e.dirtyLevel → e.w.buf.dirty = true
+
+theorem run_one {cfg : Cfg} {w w' : World} {a : Act} (h : run cfg w [a] = some w') : step cfg w a = some w' := by
+  unfold run at h
+  cases hs : step cfg w a with
+  | none => rw [hs] at h; cases h
+  | some w1 =>
+    rw [hs] at h
+    simp only [run] at h
+    rw [h]
+
+theorem edInv_step {cfg : Cfg} {e e' : EdWorld} {a : EdAct} (hi : EdInv e) (ha : EnvOk a)
+    (hs : edStep cfg e a = some e') : EdInv e' := by
+  unfold edStep at hs
+  cases hr : run cfg e.w (edExpand e.dirtyLevel a).1 with
+  | none => rw [hr] at hs; cases hs
+  | some w1 =>
+    rw [hr] at hs
+    have hs := Option.some.inj hs
+    subst hs
+    cases a with
+    | learn k v known =>
+      cases known with
+      | true =>
+        have h1 := run_one hr
+        simp only [step] at h1
+        split at h1
+        · cases h1
+        · split at h1
+          · have h1 := Option.some.inj h1
+            subst h1
+            intro _ _
+            rfl
+          · cases h1
+      | false =>
+        have h1 := run_one hr
+        simp only [step] at h1
+        split at h1
+        · cases h1
+        · split at h1
+          · next hph =>
+            have h1 := Option.some.inj h1
+            subst h1
+            intro _ hdl
+            simp only [edExpand] at hdl
+            simp only [Buf.add]
+            split
+            · exact hi hph hdl
+            · rfl
+          · cases h1
+    | unlearn k =>
+      have h1 := run_one hr
+      simp only [step] at h1
+      split at h1
+      · cases h1
+      · split at h1
+        · have h1 := Option.some.inj h1
+          subst h1
+          intro _ _
+          rfl
+        · cases h1
+    | key =>
+      intro _ hdl
+      simp only [edExpand] at hdl
+      split at hdl
+      · exact absurd hdl (by decide)
+      · next hz =>
+        simp only [edExpand, hz, ite_false, run] at hr
+        have hr := Option.some.inj hr
+        subst hr
+        exact hi ‹_› hdl
+    | env a =>
+      have h1 := run_one hr
+      simp only [EnvOk] at ha
+      intro hph hdl
+      simp only [edExpand] at hdl
+      rcases ha with ha | ha | ha | ha <;> subst ha <;> simp only [step] at h1 <;> split at h1
+      · cases h1
+      · split at h1
+        · have h1 := Option.some.inj h1
+          subst h1
+          simp only at hph
+          split at hph <;> cases hph
+        · cases h1
+      · cases h1
+      · -- d: only enabled outside `run`, and never leads back to it
+        split at h1
+        · split at h1
+          · have h1 := Option.some.inj h1
+            subst h1
+            cases hph
+          · cases h1
+        · have h1 := Option.some.inj h1
+          subst h1
+          cases hph
+        · have h1 := Option.some.inj h1
+          subst h1
+          cases hph
+        · split at h1
+          · have h1 := Option.some.inj h1
+            subst h1
+            cases hph
+          · cases h1
+        · cases h1
+      · cases h1
+      · cases hw : e.w.writer with
+        | none => rw [hw] at h1; cases h1
+        | some wr =>
+          rw [hw] at h1
+          simp only at h1
+          cases hws : wstep wr e.w.fs with
+          | none => rw [hws] at h1; cases h1
+          | some p =>
+            rw [hws] at h1
+            simp only at h1
+            have h1 := Option.some.inj h1
+            subst h1
+            exact hi hph hdl
+      · cases h1
+      · have h1 := Option.some.inj h1
+        subst h1
+        exact hi hph hdl
+
+theorem edInv_run {cfg : Cfg} {eacts : List EdAct} {e e' : EdWorld} (hi : EdInv e) (ha : ∀ a ∈ eacts, EnvOk a)
+    (h : edRun cfg e eacts = some e') : EdInv e' := by
+  induction eacts generalizing e with
+  | nil =>
+    have := Option.some.inj h
+    subst this
+    exact hi
+  | cons a as ih =>
+    unfold edRun at h
+    cases hs : edStep cfg e a with
+    | none => rw [hs] at h; cases h
+    | some e1 =>
+      rw [hs] at h
+      exact ih (edInv_step hi (ha a (List.mem_cons_self ..)) hs) (fun b hb => ha b (List.mem_cons_of_mem _ hb)) h
+
 end Chewing.Persist
